@@ -412,6 +412,19 @@ impl rustc_driver::Callbacks for Cb {
             firstc = false;
             let _ = write!(out, "{}:{{\"ty\":{},\"val\":{}}}", esc(&name), esc(&format!("{}", ty)), val);
         }
+        for ldid in tcx.mir_keys(()) {
+            let did = ldid.to_def_id();
+            if !matches!(tcx.def_kind(did), DefKind::AssocConst { .. }) { continue; }
+            let name = tcx.def_path_str(did);
+            let ty = tcx.type_of(did).skip_binder();
+            let mut val = String::from("null");
+            if let Ok(cv) = tcx.const_eval_poly(did) {
+                if let rustc_middle::mir::ConstValue::Scalar(s) = cv { if let Ok(i) = s.try_to_scalar_int() { val = format!("\"{}\"", i.to_bits(i.size())); } }
+            }
+            if !firstc { out.push(','); }
+            firstc = false;
+            let _ = write!(out, "{}:{{\"ty\":{},\"val\":{},\"assoc\":true}}", esc(&name), esc(&format!("{}", ty)), val);
+        }
         out.push_str("},\"layouts\":{");
         let mut firstl = true;
         for id in tcx.hir_free_items() {
